@@ -232,3 +232,9 @@ def run(ctx):
             m.rel,
             c.lineno,
         )
+
+    # ---- C28.6 (the obligations of C38.1, which this property depends on as well) ----
+    from ..report import BorrowCtx
+    from . import C38 as _borrowed_C38
+
+    _borrowed_C38.run(BorrowCtx(ctx, {"C38.1": "C28.6"}))
